@@ -321,6 +321,13 @@ def base_catalogue():
                      [("add", "b", "\"nb\".to_string()"), ("add", "c", "None"), ]))
     decls.append(Rec("EvolvedOuter", [F("x", "u16"), F("e", "EvolvedInner"), F("es", "Vec<EvolvedInner>"), F("y", "String"), F("z", "u8")],
                      [("add", "z", "3u8")]))
+    # an evolved record as the *last* field of a chunk of an evolved record, with a later chunk behind it: an inner chunk
+    # size that overruns the enclosing chunk stays inside the buffer (C06)
+    decls.append(Rec("NestTail", [F("a", "u8"), F("inner", "EvolvedInner"), F("tail", "String")], [("add", "tail", "String::new()")]))
+    decls.append(Rec("NestTailVec", [F("a", "u8"), F("inners", "Vec<EvolvedInner>"), F("t", "u16"), F("u", "Vec<u8>")],
+                     [("add", "t", "0u16"), ("add", "u", "Vec::new()")]))
+    decls.append(Rec("NestTailOpt", [F("inner", "Option<Point2>", "optional", None, "Point2"), F("n", "String"), F("m", "u8")],
+                     [("add", "n", "String::new()"), ("rem", "gone"), ("add", "m", "0u8")]))
     # deduplicated strings in evolved records with removed names in the header (D11)
     decls.append(Rec("DedupR", [F("name", "crate::v::DStr")], [("rem", "gone")]))
     decls.append(Rec("DedupR2", [F("a", "crate::v::DStr"), F("b", "crate::v::DStr")], [("rem", "gone")]))
